@@ -12,7 +12,11 @@ Three parts:
 * correspondence with the Lean model (HcipyVerif.Serial): the real ``to_dict`` trees are sent to
   the model, which decodes / re-encodes them, and runs its model of the FITS image paths
   (image HDU layout, tree left in the file, result of reading); plus ``ravel``/``unravel``
-  against ``np.ravel_multi_index``/``np.unravel_index``.
+  against ``np.ravel_multi_index``/``np.unravel_index``.  Round 4: the base class ``Grid`` and an
+  unregistered user subclass as grid kinds; the tree actually stored in every asdf file (and every grid
+  FITS file) against the model's ASDF layer (``file``: monitors the hypothesis ``AsdfFaithful``);
+  ``_weights is None`` before/after ``to_dict`` and the FITS write against the model's programs over the
+  object (``todict-st``); the real ``Field.__getstate__()`` against the model's ``getState`` (``getstate``).
 """
 import copy
 import os
@@ -30,7 +34,15 @@ FAM_OF = {'asdf': 'asdf', 'fits': 'fits', 'fits.gz': 'fits', 'pkl': 'pickle'}
 FIELD_DTYPES = ['float64', 'float32', 'int64', 'int32', 'int16', 'uint8', 'int8', 'uint16', 'uint32',
                 'uint64', 'complex128', 'complex64', 'bool', 'float16']
 BASIS_DTYPES = ['float64', 'float32', 'int64', 'int32', 'complex128', 'bool', 'uint8']
-ERRMAP = {'KeyError': 'key', 'ValueError': 'value', 'TypeError': 'type', 'AttributeError': 'attr'}
+ERRMAP = {'KeyError': 'key', 'ValueError': 'value', 'TypeError': 'type', 'AttributeError': 'attr', 'NotImplementedError': 'notimpl'}
+# (file name, fmt argument) pairs for the stream "filert": write_*(x, name, fmt) then read_*(name, fmt).  Extensions that are
+# guessed, names nothing can be guessed from (ValueError), an explicit fmt overriding the name, fmt strings no branch takes
+# (NotImplementedError), names without a dot.
+NAMED = [('a.asdf', None), ('a.fits', None), ('a.fits.gz', None), ('a.pkl', None), ('a.pickle', None),
+         ('a.dat', None), ('a.dat', 'asdf'), ('a.dat', 'fits'), ('a.dat', 'pickle'), ('a.asdf', 'fits'),
+         ('a.fits', 'pickle'), ('a.pkl', 'asdf'), ('a.dat', 'hdf5'), ('a.asdf', 'FITS'), ('xasdf', None),
+         ('a.fits.gz', 'fits'), ('a.gz', None), ('a.fit', None), ('a.fits.pickle', None), ('a.pkl.asdf', None),
+         ('a.pickle', 'fits'), ('a.fits', 'asdf'), ('a.asdf.bak', None), ('a.asdf', 'pkl'), ('b_fits', None)]
 
 
 # ---------------------------------------------------------------------------------------------
@@ -67,6 +79,33 @@ def with_border(a, border):
     return out
 
 
+SYSTEMS = ['cartesian', 'polar', 'none', 'other']
+
+
+def _unregistered_cls():
+    """A user subclass of Grid whose coordinate system ('other') was never passed to
+    Grid._add_coordinate_system: written by asdf/fits, not readable (theorem grid_file_readable_iff)."""
+    cls = globals().get('_Unregistered')
+    if cls is None:
+        import hcipy
+        cls = type('_Unregistered', (hcipy.Grid,), {'_coordinate_system': 'other', '__module__': __name__})
+        globals()['_Unregistered'] = cls        # importable by name: default pickling works
+    return cls
+
+
+def grid_class(system):
+    import hcipy
+    if system == 'polar':
+        return hcipy.PolarGrid
+    if system == 'cartesian':
+        return hcipy.CartesianGrid
+    if system == 'none':
+        return hcipy.Grid
+    if system == 'other':
+        return _unregistered_cls()
+    raise MachineryError('system ' + str(system))
+
+
 def build_grid(spec):
     import hcipy
     cd = np.dtype(spec.get('cdtype', 'float64')).newbyteorder(spec.get('cborder') or '=')
@@ -94,7 +133,7 @@ def build_grid(spec):
         weights = [float(x) for x in w['v']]
     else:
         raise MachineryError('weights spec')
-    cls = hcipy.PolarGrid if spec['system'] == 'polar' else hcipy.CartesianGrid
+    cls = grid_class(spec['system'])
     g = cls(coords, weights)
     if spec.get('reversed'):
         g = g.reversed()        # separated/unstructured: the stored arrays become negative-stride views
@@ -103,8 +142,8 @@ def build_grid(spec):
             warnings.simplefilter('ignore')
             try:
                 g.weights       # materialise the automatic weights before writing
-            except IndexError:
-                pass            # separated axis of length one: no automatic weights (C11's business); stays None
+            except (IndexError, NotImplementedError):
+                pass            # separated axis of length one / base class Grid: no automatic weights; stays None
     return g
 
 
@@ -370,6 +409,11 @@ def gen_grid(rng, big=False, top_level=False):
     kind = ['regular', 'separated', 'unstructured'][int(rng.integers(0, 3))]
     ndim = int(rng.choice([1, 2, 2, 2, 3]))
     system = 'polar' if (ndim == 2 and rng.random() < 0.3) else 'cartesian'
+    r = rng.random()
+    if r < 0.1:
+        system = 'none'         # the base class Grid (D161)
+    elif r < 0.16 and top_level:
+        system = 'other'        # unregistered user subclass: written, not readable (stated assumption)
     top = 7 if big else 5
     spec = {'what': 'grid', 'kind': kind, 'system': system}
     cd = 'float64'
@@ -537,6 +581,17 @@ DIRECTED = [
     _b(_REG2, 'dense', border='>'), _b(_UNS2, 'dense', border='>'), _b(_REG2, 'dense', ts=[2], border='>', dt='float32'), _b(_REG2, 'sparse', border='>'),
     _b(_REG2, 'dense', layout='F'), _b(_UNS2, 'dense', layout='F'), _b(_REG2, 'dense', ts=[2], layout='F'),
     _b(_UNS2, 'dense', ts=[2], layout='P'), _b(_REG2, 'dense', layout='neg'), _b(_SEPR, 'dense', layout='strided'),
+    # round 4: the base class Grid (coordinate system 'none', D161) as grid, under fields and under mode bases
+    dict(_REG2, system='none'), dict(_SEPR, system='none', weights={'t': 'pyfloat', 'v': 2.0}),
+    dict(_UNS2, system='none', weights={'t': 'array', 'dtype': 'float64', 'v': [1.0, 2.0, 3.0, 4.0]}),
+    dict(_REG1, system='none', weights={'t': 'npfloat', 'v': 0.5}), dict(_REG2, system='none', mods=[['reverse']]),
+    _f(dict(_REG2, system='none'), [2]), _f(dict(_UNS2, system='none'), [2, 2]), _f(dict(_SEPR, system='none'), [], 'int16', layout='F'),
+    _b(dict(_REG2, system='none'), 'dense'), _b(dict(_REG2, system='none'), 'sparse'), _b(dict(_UNS2, system='none'), 'dense', ts=[2]),
+    # round 4: an unregistered user subclass (system 'other'): written by asdf/fits, read_grid raises KeyError; pickle works
+    dict(_REG2, system='other'), dict(_UNS2, system='other', weights={'t': 'pyfloat', 'v': 2.0}), dict(_SEPR, system='other'),
+    # round 4: NumPy-scalar weights (asdf stores a plain number: Grid.pyWeights in the model)
+    dict(_REG2, weights={'t': 'npfloat', 'v': 2.5}), _f(dict(_SEPR, weights={'t': 'npfloat', 'v': 0.75}), [2]),
+    _b(dict(_REG2, weights={'t': 'npfloat', 'v': 1.5}), 'sparse'),
 ]
 
 
@@ -677,6 +732,10 @@ def class_key(spec):
     what = spec['what']
     g = spec if what == 'grid' else spec['grid']
     gk = 'no-grid' if g is None else g['kind']
+    if g is not None and g['system'] == 'none':
+        gk = 'base-grid-' + gk
+    if g is not None and g['system'] == 'other':
+        gk = 'unregistered-' + gk
     if what == 'grid':
         return gk
     tensor = 'tensor' if spec['tshape'] else 'scalar'
@@ -687,6 +746,49 @@ def class_key(spec):
 
 def is_ragged(g):
     return g is not None and g['kind'] == 'separated' and len(set(len(a) for a in g['axes'])) > 1
+
+
+def raw_tree(fn, fmt, key):
+    """The tree the ASDF library hands back for a file hcipy wrote (what read_* passes to from_dict), encoded."""
+    import sys
+    import asdf
+    import hcipy  # noqa
+    hio = sys.modules['hcipy.util.io']
+    if fmt == 'asdf':
+        params = {'memmap': False} if hio.use_asdf_memmap else {'copy_arrays': True}
+        with asdf.open(fn, **params) as af:
+            return encode(af.tree[key])
+    from astropy.io import fits
+    with fits.open(fn, memmap=False) as hd:
+        return encode(hio._bintable_to_asdf(hd['ASDF']).tree[key])
+
+
+TREE_KEY = {'grid': 'grid', 'field': 'field', 'basis': 'mode_basis'}
+
+
+def sniff(fn):
+    """the format of a file, from its first bytes"""
+    with open(fn, 'rb') as f:
+        h = f.read(8)
+    if h.startswith(b'#ASDF'):
+        return 'asdf'
+    if h.startswith(b'SIMPLE') or h.startswith(b'\x1f\x8b'):     # astropy gzips FITS files named *.gz
+        return 'fits'
+    if h[:1] == b'\x80':
+        return 'pickle'
+    return 'other'
+
+
+def getstate_obs(x):
+    """The real Field.__getstate__(): (shape, dtype tag, Fortran flag, bytes decoded with the dtype), and the memory
+    layout class of the data as NumPy reports it (input of the model)."""
+    a = np.asarray(x)
+    lay = 'f' if (a.flags.f_contiguous and not a.flags.c_contiguous) else 'c'
+    st = x.__getstate__()
+    shape, dt, isf, raw = st[1], st[2], st[3], st[4]
+    flat = np.frombuffer(raw, dtype=dt)
+    tag = dt.newbyteorder('=').str.lstrip('<>|=')
+    return lay, 'ok shape=[%s] dtype=%s fortran=%s raw=%s' % (','.join(str(int(n)) for n in shape), tag, 'T' if isf else 'F', enc_arr(flat))
 
 
 def round_trips(spec, tmpdir):
@@ -705,6 +807,22 @@ def round_trips(spec, tmpdir):
         ref = sig(x)
         snap0 = snapshot(what, x)
         ck = class_key(spec)
+        gspec = spec if what == 'grid' else spec['grid']
+        unreg = gspec is not None and gspec['system'] == 'other'
+        gobj = grid_of(what, x)
+
+        def wnone():
+            return '-' if gobj is None else ('N' if gobj._weights is None else 'S')
+
+        obs['wnone'] = {'before': wnone()}
+        # is `_weights` a NumPy scalar (np.generic or a 0-d array)?  The model's predicate Tree.isNpScalar: the one case in
+        # which the ASDF layer hands back something else (a Python number) than what was stored
+        _w = None if gobj is None else gobj._weights
+        obs['npscalar'] = '-' if gobj is None else ('T' if isinstance(_w, np.generic) or (isinstance(_w, np.ndarray) and _w.ndim == 0) else 'F')
+
+        def expected_refusal(e):
+            """An unregistered coordinate system cannot be read back (KeyError): the stated assumption, not a violation."""
+            return unreg and isinstance(e, KeyError)
 
         def compare(y, route, fam):
             d = first_difference(what, ref, sig(y))
@@ -726,6 +844,8 @@ def round_trips(spec, tmpdir):
         FAM = {'asdf': 'asdf', 'fits': 'fits', 'fits.gz': 'fits', 'pkl': 'pickle'}
         read_back = {}
 
+        chain_err = [None]      # error kind of the hop that ended the current chain (None: a violation ended it)
+
         def hop(cur, fmt, route, k):
             """write an object that was itself read from a file, read it again; None when refused/failed"""
             fam = FAM[fmt]
@@ -737,6 +857,7 @@ def round_trips(spec, tmpdir):
                 write(cur, fn)
             except Exception as e:  # noqa
                 obs.setdefault('chain_refused', []).append('%s:%s' % (fmt, type(e).__name__))
+                chain_err[0] = ERRMAP.get(type(e).__name__, 'other:' + type(e).__name__)
                 if snapshot(what, cur) != before:
                     fails.append(('write-alters:%s:chain>%s:%s' % (what, fam, ck), 'a refused write (%s) altered the %s being written' % (route, what)))
                 return None
@@ -747,6 +868,10 @@ def round_trips(spec, tmpdir):
                 with _NewStyle(spec.get('newstyle')):
                     nxt = read(fn)
             except Exception as e:  # noqa
+                if expected_refusal(e) and fam != 'pickle':
+                    obs.setdefault('chain_refused', []).append('%s:read-unregistered' % fmt)
+                    chain_err[0] = 'key'
+                    return None
                 fails.append(('%s:chain>%s:%s' % (what, fam, ck), 'chain %s: the write succeeded but reading back raised %s: %s' % (
                     route, type(e).__name__, str(e)[:100])))
                 return None
@@ -769,7 +894,23 @@ def round_trips(spec, tmpdir):
         except Exception as e:  # noqa
             obs['to_dict'] = ERRMAP.get(type(e).__name__, 'other:' + type(e).__name__)
         unchanged('to_dict', 'dict')
+        obs['wnone']['after_dict'] = wnone()
+        if tree is None and what == 'basis' and x.grid is None:
+            # the part of the dictionary form that exists: sent to the model as a basis without grid
+            try:
+                import hcipy
+                x2 = copy.copy(x)
+                x2.grid = hcipy.CartesianGrid(hcipy.UnstructuredCoords([np.arange(spec['npoints'], dtype='float64')]))
+                t2 = x2.to_dict()
+                del t2['grid']
+                obs['nogrid_tree'] = encode(t2)
+            except MachineryError:
+                raise
+            except Exception:  # noqa
+                pass
+            unchanged('copy.copy', 'dict')
         if tree is not None:
+            obs['tree'] = encode(tree)
             try:
                 with _NewStyle(spec.get('newstyle')):
                     y = cls.from_dict(tree)
@@ -780,8 +921,13 @@ def round_trips(spec, tmpdir):
             except MachineryError:
                 raise
             except Exception as e:  # noqa
-                fails.append(('%s:dict:%s' % (what, ck), 'from_dict(to_dict(x)) raised %s: %s' % (type(e).__name__, str(e)[:100])))
+                obs['dict_err'] = ERRMAP.get(type(e).__name__, 'other:' + type(e).__name__)
+                if not expected_refusal(e):
+                    fails.append(('%s:dict:%s' % (what, ck), 'from_dict(to_dict(x)) raised %s: %s' % (type(e).__name__, str(e)[:100])))
             unchanged('from_dict', 'dict')
+        if what == 'field':
+            obs['getstate'] = getstate_obs(x)
+            unchanged('__getstate__', 'pickle')
         # pickle in memory, deepcopy
         for route, fn in (('pickle.dumps/loads', lambda o: pickle.loads(pickle.dumps(o))), ('deepcopy', copy.deepcopy)):
             try:
@@ -811,16 +957,23 @@ def round_trips(spec, tmpdir):
                 unchanged('a refused write_%s(%s)' % (what, fmt), fam)
                 continue
             unchanged('write_%s(%s)' % (what, fmt), fam)
+            if fmt == 'fits':
+                obs['wnone']['after_fits'] = wnone()
             if fam == 'fits':
                 from astropy.io import fits
                 with fits.open(fn, memmap=False) as hd:
                     o['img'] = 'N' if hd[0].data is None else enc_arr(np.array(hd[0].data))
+            if fmt == 'asdf' or (fam == 'fits' and what == 'grid'):
+                o['raw'] = raw_tree(fn, fam, TREE_KEY[what])
             try:
                 with _NewStyle(spec.get('newstyle')):
                     y = read(fn)
                 o['r'] = 'ok'
             except Exception as e:  # noqa
                 o['r'] = ERRMAP.get(type(e).__name__, 'other:' + type(e).__name__)
+                if expected_refusal(e) and fam != 'pickle':
+                    o['expected_refusal'] = True
+                    continue
                 fails.append(('%s:%s:%s' % (what, fam, ck), 'write_%s(%s) succeeded but reading the file back raised %s: %s' % (
                     what, fmt, type(e).__name__, str(e)[:100])))
                 continue
@@ -830,19 +983,79 @@ def round_trips(spec, tmpdir):
                 raise
             except Exception:  # noqa
                 o['out'] = None
+            if unreg and fam != 'pickle':
+                # the model's theorem (and the stated assumption) say such a file is not readable
+                obs['unregistered_read_ok'] = fmt
             if compare(y, 'write/read %s' % fmt, fam):
                 read_back[fmt] = y
             unchanged('read_%s(%s)' % (what, fmt), fam)
+        # named files: write_*(x, name, fmt) then read_*(name, fmt) for generated (file name, fmt argument) pairs
+        for nm, fm in spec.get('named') or []:
+            ndir = os.path.join(tmpdir, 'named')
+            os.makedirs(ndir, exist_ok=True)
+            fn = os.path.join(ndir, nm)
+            if os.path.exists(fn):
+                os.remove(fn)
+            o = {'name': nm, 'fmt': fm, 'w': 'ok', 'fam': '-', 'r': '-', 'out': None}
+            obs.setdefault('named', []).append(o)
+            route = 'write/read %r fmt=%r' % (nm, fm)
+            try:
+                write(x, fn, fmt=fm)
+            except Exception as e:  # noqa
+                o['w'] = ERRMAP.get(type(e).__name__, 'other:' + type(e).__name__)
+                unchanged('a refused ' + route, 'named')
+                continue
+            unchanged(route, 'named')
+            o['fam'] = sniff(fn)
+            try:
+                with _NewStyle(spec.get('newstyle')):
+                    y = read(fn, fmt=fm)
+                o['r'] = 'ok'
+            except Exception as e:  # noqa
+                o['r'] = ERRMAP.get(type(e).__name__, 'other:' + type(e).__name__)
+                if expected_refusal(e) and o['fam'] != 'pickle':
+                    continue
+                fails.append(('%s:named-file:%s:%s' % (what, o['fam'], ck), '%s succeeded but reading it back raised %s: %s' % (
+                    route, type(e).__name__, str(e)[:100])))
+                continue
+            try:
+                o['out'] = encode(y.to_dict())
+            except MachineryError:
+                raise
+            except Exception:  # noqa
+                o['out'] = None
+            if unreg and o['fam'] != 'pickle':
+                obs['unregistered_read_ok'] = 'named ' + nm
+            compare(y, route, 'named-file:' + o['fam'])
+            unchanged('reading ' + route, 'named')
         # chains: what was read from A is written to B, read, written to C, read
         for k, chain in enumerate(spec.get('chains') or []):
             cur = read_back.get(chain[0])
             route = chain[0]
+            o0 = obs['fmt'].get(chain[0], {})
+            chain_err[0] = o0.get('w') if o0.get('w') != 'ok' else (o0.get('r') if o0.get('r') not in ('ok', '-') else None)
             for fmt in chain[1:]:
                 if cur is None:
                     break
+                chain_err[0] = None
                 route += '>' + fmt
                 cur = hop(cur, fmt, route, k)
             unchanged('chain ' + route, 'chain')
+            # for the model (gridChain / fieldChain): the file names of the hops, the last object read or the error kind
+            rec = {'hops': ['x.' + chain[0]] + ['c%d.%s' % (k, fmt) for fmt in chain[1:]], 'out': None, 'err': None}
+            if cur is not None:
+                try:
+                    rec['out'] = encode(cur.to_dict())
+                except MachineryError:
+                    raise
+                except Exception:  # noqa
+                    rec = None
+            elif chain_err[0] is not None:
+                rec['err'] = chain_err[0]
+            else:
+                rec = None      # ended by a violation (reported above): nothing to compare
+            if rec is not None:
+                obs.setdefault('chain_out', []).append(rec)
     return obs, fails
 
 
@@ -901,6 +1114,72 @@ def canon_scalars(s):
     return _NP_SCALAR.sub(lambda m: ('f' if m.group(1) == 'f' else 'i') + m.group(2), s)
 
 
+def _canon(s, i):
+    """parse one tree token of the wire format at s[i:], return (the same tree with dictionary keys sorted, end)"""
+    c = s[i]
+    if c in 'NTF':
+        return c, i + 1
+    if c in 'if':
+        j = i + 1
+        while j < len(s) and (s[j].isdigit() or s[j] in '-/'):
+            j += 1
+        return s[i:j], j
+    if c == 's':
+        j = i + 1
+        while j < len(s) and (s[j].isalnum() or s[j] == '_'):
+            j += 1
+        return s[i:j], j
+    if c == 'a':
+        j = s.index(']', i) + 1
+        return s[i:j], j
+    if c == 'l' and s[i + 1] == '[':
+        i += 2
+        items = []
+        if s[i] == ']':
+            return 'l[]', i + 1
+        while True:
+            t, i = _canon(s, i)
+            items.append(t)
+            if s[i] == ',':
+                i += 1
+            elif s[i] == ']':
+                return 'l[' + ','.join(items) + ']', i + 1
+            else:
+                raise MachineryError('tree syntax: ' + s[:200])
+    if c == 'd' and s[i + 1] == '{':
+        i += 2
+        items = []
+        if s[i] == '}':
+            return 'd{}', i + 1
+        while True:
+            j = s.index(':', i)
+            t, i2 = _canon(s, j + 1)
+            items.append((s[i:j], t))
+            i = i2
+            if s[i] == ',':
+                i += 1
+            elif s[i] == '}':
+                return 'd{' + ','.join('%s:%s' % kv for kv in sorted(items)) + '}', i + 1
+            else:
+                raise MachineryError('tree syntax: ' + s[:200])
+    raise MachineryError('tree syntax: ' + s[:200])
+
+
+def canon_answer(line):
+    """A driver answer / expectation with every tree value re-emitted with sorted dictionary keys: dictionaries are
+    maps (ASDF returns the keys of every dictionary alphabetically; from_dict only looks keys up)."""
+    out = []
+    for tok in line.split(' '):
+        k, eq, v = tok.partition('=')
+        if eq and v[:2] in ('d{', 'l['):
+            t, j = _canon(v, 0)
+            if j != len(v):
+                raise MachineryError('tree syntax: ' + v[:200])
+            tok = k + '=' + t
+        out.append(tok)
+    return ' '.join(out)
+
+
 def model_requests(spec, obs):
     """[(label, request line, expected response or None)]"""
     what = spec['what']
@@ -918,6 +1197,65 @@ def model_requests(spec, obs):
                     exp = 'ok w=ok img=%s r=%s out=%s' % (o['img'], o['r'], o['out'] if o['r'] == 'ok' and o['out'] else '-')
                 reqs.append(('fits-new:' + fmt, 'C16 fits %s new %s' % (what, obs['dict_tree']), exp))
                 reqs.append(('fits-old:' + fmt, 'C16 fits %s old %s' % (what, obs['dict_tree']), exp))
+        if what == 'field' and 'getstate' in obs:
+            lay, exp = obs['getstate']
+            reqs.append(('getstate', 'C16 getstate field %s %s' % (lay, obs['dict_tree']), exp))
+    if 'tree' not in obs and 'nogrid_tree' in obs:
+        # a mode basis without grid has no dictionary form: every write with a resolvable format is refused with
+        # AttributeError (to_dict() runs before the dispatch), in pickle and unknown formats too
+        for o in obs.get('named', []):
+            fm = o['fmt'] if o['fmt'] is not None else '-'
+            exp = 'ok w=%s fam=%s r=%s out=-' % (o['w'], o['fam'], o['r'])
+            reqs.append(('filert', 'C16 filert basis - %s %s %s' % (o['name'], fm, obs['nogrid_tree']), exp))
+        for fmt, o in obs['fmt'].items():
+            exp = 'ok w=%s fam=%s r=%s out=-' % (o['w'], FAM_OF[fmt] if o['w'] == 'ok' else '-', o['r'])
+            reqs.append(('filert', 'C16 filert basis - x.%s - %s' % (fmt, obs['nogrid_tree']), exp))
+    if 'tree' not in obs:
+        return reqs
+    tree = obs['tree']
+    if what == 'grid':
+        # the dictionary form of a grid: readable iff the system is registered (also when from_dict raised)
+        exp = ('ok ' + obs['dict_back']) if 'dict_back' in obs else ('err ' + obs.get('dict_err', '?'))
+        if 'dict_tree' not in obs:
+            reqs.append(('dict', 'C16 dict grid %s' % tree, exp))
+        reqs.append(('gridold', 'C16 dict gridold %s' % tree, exp))
+    # the file layer: what the ASDF library stored (monitors AsdfFaithful), read status, object read
+    if what == 'grid' or 'dict_tree' in obs:
+        for fmt, o in obs['fmt'].items():
+            if o.get('raw') is None or o['w'] != 'ok':
+                continue
+            exp = 'ok sc=%s w=ok file=%s r=%s out=%s' % (obs['npscalar'], o['raw'], o['r'], o['out'] if o['r'] == 'ok' and o['out'] else '-')
+            fam = FAM_OF[fmt]
+            reqs.append(('file-new:' + fmt, 'C16 file %s %s new %s' % (what, fam, tree), exp))
+            if what == 'grid':
+                reqs.append(('file-old:' + fmt, 'C16 file grid %s old %s' % (fam, tree), exp))
+    # named files: the readers / writers as a whole (format resolution, to_dict before the dispatch, the format's path)
+    if what == 'grid' or 'dict_tree' in obs:
+        lay = obs['getstate'][0] if (what == 'field' and 'getstate' in obs) else ('c' if what == 'field' else '-')
+        for o in obs.get('named', []):
+            fm = o['fmt'] if o['fmt'] is not None else '-'
+            if o['w'] != 'ok':
+                exp = 'ok w=%s fam=- r=- out=-' % o['w']
+            else:
+                exp = 'ok w=ok fam=%s r=%s out=%s' % (o['fam'], o['r'], o['out'] if o['r'] == 'ok' and o['out'] else '-')
+            reqs.append(('filert', 'C16 filert %s %s %s %s %s' % (what, lay, o['name'], fm, tree), exp))
+            if o['w'] == 'ok':
+                reqs.append(('format', 'C16 format %s %s' % (o['name'], fm), 'ok ' + o['fam']))
+            elif what == 'grid':        # a grid write is refused only when no format is found
+                reqs.append(('format', 'C16 format %s %s' % (o['name'], fm), 'err ' + o['w']))
+    # chains of files (A > B > C): the last object read, or the kind of the refusal that ended the chain
+    if what == 'grid' or 'dict_tree' in obs:
+        lay = obs['getstate'][0] if (what == 'field' and 'getstate' in obs) else ('c' if what == 'field' else '-')
+        for rec in obs.get('chain_out', []):
+            exp = ('ok ' + rec['out']) if rec['out'] is not None else ('err ' + rec['err'])
+            reqs.append(('chain', 'C16 chain %s %s %s %s' % (what, lay, ','.join(h + ':-' for h in rec['hops']), tree), exp))
+    # to_dict and the FITS writer as programs over the object: _weights None-ness before / after
+    wn = obs.get('wnone', {})
+    if (what == 'grid' or 'dict_tree' in obs) and 'after_dict' in wn and 'after_fits' in wn:
+        w = obs['fmt']['fits']['w']
+        exp = 'ok before=%s after=%s tree=%s wafter=%s w=%s' % (wn['before'], wn['after_dict'], tree, wn['after_fits'], w)
+        reqs.append(('todict-st', 'C16 todict-st %s good %s' % (what, tree), exp))
+        reqs.append(('todict-st-bad', 'C16 todict-st %s bad %s' % (what, tree), exp))
     return reqs
 
 
@@ -976,6 +1314,25 @@ def check_spec(ctx, spec, tmpdir, batch):
         if o['w'] != 'ok' and fmt in ('asdf', 'pkl') and obs.get('to_dict') == 'ok':
             ctx.disagree('C16 write', {'spec': spec, 'fmt': fmt, 'impl': o['w'] + ': ' + o.get('w_msg', ''),
                                        'model': 'every object with a dictionary form can be written to asdf and pickle'})
+    if g is not None:
+        ctx.count('weights-at-write:' + ('None (lazy, not materialised)' if obs.get('wnone', {}).get('before') == 'N' else 'set'))
+        if g['system'] in ('none', 'other'):
+            ctx.count('grid-class:%s:%s' % ({'none': 'base Grid', 'other': 'unregistered subclass'}[g['system']], what))
+    for fmt, o in obs['fmt'].items():
+        if o.get('expected_refusal'):
+            ctx.count('unregistered-grid:%s:written-not-readable (KeyError, as stated)' % fmt)
+        if o.get('raw') is not None:
+            ctx.count('asdf-layer-monitored:%s:%s' % (what, fmt))
+    if 'unregistered_read_ok' in obs:
+        ctx.disagree('C16 unregistered', {'spec': spec, 'impl': 'read back through ' + obs['unregistered_read_ok'],
+                                          'model': 'a grid with an unregistered coordinate system is written but not readable'})
+    if 'getstate' in obs:
+        ctx.count('getstate-layout:' + obs['getstate'][0])
+    if 'nogrid_tree' in obs:
+        ctx.count('basis-without-grid:sent-to-model')
+    for o in obs.get('named', []):
+        ctx.count('named-file:%s:%s' % ('fmt=' + (o['fmt'] or 'None'), 'written as %s, read %s' % (o['fam'], o['r']) if o['w'] == 'ok' else 'write-refused-' + o['w']))
+        ctx.count('named-file:name:' + o['name'])
     for m in obs.get('mods', []):
         ctx.count('mod:%s:%s' % (what, m))
     ctx.count('%s:modified-after-construction' % what if any(m.startswith('applied') for m in obs.get('mods', [])) else '%s:fresh' % what)
@@ -1004,14 +1361,75 @@ def check_spec(ctx, spec, tmpdir, batch):
 
 
 def check_ravel(ctx, rng, n, batch):
-    for _ in range(n):
+    """ravel/unravel with NumPy's checks: valid indices (the two maps are inverse), and indices NumPy refuses with
+    ValueError -- an entry out of bounds, an index of the wrong length, a flat index not below the size -- which the
+    model must refuse too (`InBounds`, `k < prod s`: the hypotheses of the index theorems)."""
+    def lst(v):
+        return '[' + ','.join(map(str, v)) + ']'
+
+    def np_ravel(idx, shape):
+        try:
+            return 'ok %d' % int(np.ravel_multi_index(tuple(idx), tuple(shape)))
+        except ValueError:
+            return 'err value'
+
+    def np_unravel(k, shape):
+        try:
+            return 'ok ' + lst(int(i) for i in np.unravel_index(k, tuple(shape)))
+        except ValueError:
+            return 'err value'
+
+    for j in range(n):
         shape = [int(rng.integers(1, 6)) for _ in range(int(rng.integers(1, 5)))]
-        k = int(rng.integers(0, int(np.prod(shape))))
+        size = int(np.prod(shape))
+        k = int(rng.integers(0, size))
         idx = [int(i) for i in np.unravel_index(k, shape)]
-        s = '[' + ','.join(map(str, shape)) + ']'
-        batch.append((None, 'unravel', 'C16 unravel %s %d' % (s, k), 'ok [' + ','.join(map(str, idx)) + ']'))
-        batch.append((None, 'ravel', 'C16 ravel %s [%s]' % (s, ','.join(map(str, idx))), 'ok %d' % int(np.ravel_multi_index(idx, shape))))
+        batch.append((None, 'unravel', 'C16 unravel %s %d' % (lst(shape), k), 'ok ' + lst(idx)))
+        batch.append((None, 'ravel', 'C16 ravel %s %s' % (lst(shape), lst(idx)), 'ok %d' % int(np.ravel_multi_index(idx, shape))))
         ctx.count('ravel/unravel')
+        c = j % 4
+        if c == 0:      # one entry at or beyond its bound
+            a = int(rng.integers(0, len(shape)))
+            bad = list(idx)
+            bad[a] = shape[a] + int(rng.integers(0, 3))
+            batch.append((None, 'ravel', 'C16 ravel %s %s' % (lst(shape), lst(bad)), np_ravel(bad, shape)))
+            ctx.count('ravel:entry-out-of-bounds')
+        elif c == 1:    # wrong length (shorter / longer)
+            bad = idx[:-1] if rng.integers(0, 2) else idx + [0]
+            batch.append((None, 'ravel', 'C16 ravel %s %s' % (lst(shape), lst(bad)), np_ravel(bad, shape)))
+            ctx.count('ravel:index-of-wrong-length')
+        elif c == 2:    # flat index at or beyond the size
+            kb = size + int(rng.integers(0, 3))
+            batch.append((None, 'unravel', 'C16 unravel %s %d' % (lst(shape), kb), np_unravel(kb, shape)))
+            ctx.count('unravel:flat-index-out-of-bounds')
+        else:           # a shape with an empty axis: nothing is in bounds
+            a = int(rng.integers(0, len(shape)))
+            sh = list(shape)
+            sh[a] = 0
+            z = [0] * len(sh)
+            batch.append((None, 'ravel', 'C16 ravel %s %s' % (lst(sh), lst(z)), np_ravel(z, sh)))
+            batch.append((None, 'unravel', 'C16 unravel %s 0' % lst(sh), np_unravel(0, sh)))
+            ctx.count('ravel/unravel:empty-axis')
+
+
+def check_names(ctx, rng, n, batch):
+    """_guess_file_format on generated names vs the model's guessFormat"""
+    import sys
+    import hcipy  # noqa
+    hio = sys.modules['hcipy.util.io']
+    ends = ['asdf', 'fits', 'fits.gz', 'pkl', 'pickle', 'fit', 'gz', 'asd', 'kl', 'pickl', 'ASDF', 'Fits', 'fits.g', 'its', 'dat', '']
+    names = [n_ for n_, _ in NAMED]
+    alphabet = 'adfgiklpstz._'
+    for _ in range(n):
+        stem = ''.join(alphabet[int(i)] for i in rng.integers(0, len(alphabet), int(rng.integers(0, 6))))
+        e = ends[int(rng.integers(0, len(ends)))]
+        names.append(stem + ('.' if rng.integers(0, 3) else '') + e + ('' if rng.integers(0, 6) else alphabet[int(rng.integers(0, len(alphabet)))]))
+    for nm in names:
+        if not nm:
+            continue
+        real = hio._guess_file_format(nm)
+        batch.append((None, 'guess', 'C16 guess ' + nm, 'ok ' + (real if real is not None else 'none')))
+        ctx.count('guess:' + str(real))
 
 
 def run(ctx):
@@ -1027,8 +1445,23 @@ def run(ctx):
                 'and after every step. A refused write is not a violation but is compared with the model\'s prediction. '
                 'Model correspondence: real to_dict trees -> Lean fromDict/toDict; Lean model of the FITS image paths '
                 '(image HDU content, read result) for both fits and fits.gz files; ravel/unravel vs NumPy. '
+                'Round 4: grid classes also the base class Grid (system none) and an unregistered user subclass (system other, top-level grids only); '
+                'stream file: the tree the ASDF library hands back for every asdf file and every grid FITS file vs the model\'s ASDF layer (dictionaries as maps), '
+                'read status and object read; stream todict-st: _weights None-ness before / after to_dict and after the FITS write vs the model\'s programs over '
+                'the object (and the bad variant must be told apart exactly on lazy grids); stream getstate: the real Field.__getstate__() (shape, dtype, '
+                'Fortran flag, bytes) vs the model\'s getState. ' 
+                'stream filert: write_*(x, name, fmt) then read_*(name, fmt) for a pool of (file name, fmt argument) pairs (guessed extensions, '
+                'nothing to guess, explicit fmt overriding the name, fmt strings no branch takes) vs the model\'s write...File / read...File '
+                '(write status, format found in the file by its magic bytes, read status, object read); stream guess: _guess_file_format on generated names; '
+                'stream chain: the last object read after each A>B>C chain of files (or the refusal that ended it) vs gridChain / fieldChain; '
+                'ravel/unravel now with NumPy\'s refusals (out of bounds, wrong length, empty axis). '
                 'Non-trivial = more than one grid point; distinct by the full description tuple.')
-    ctx.assumptions += ['asdf, astropy.io.fits and pickle store and return arrays faithfully (exercised, not proved)',
+    ctx.assumptions += ['asdf, astropy.io.fits and pickle store and return arrays faithfully (exercised, not proved); for asdf files and grid '
+                        'FITS files this is the Lean hypothesis AsdfFaithful, monitored on every file written (stream "file"): the tree '
+                        'loaded equals the tree stored up to dictionary key order and NumPy-scalar weights -> Python numbers',
+                        'grid classes are registered in Grid._coordinate_systems: a user subclass that never called '
+                        'Grid._add_coordinate_system (generated as system "other") is written by asdf/fits but read_grid raises KeyError; '
+                        'theorem grid_file_readable_iff states this exception; the check verifies it happens and does not report it',
                         'values are finite and exactly representable (no NaN/inf sent to the model)',
                         'dtype equality is taken up to byte order: FITS images come back big endian']
     rng = ctx.rng
@@ -1051,24 +1484,56 @@ def run(ctx):
             spec['chains'] = [[a, b, FORMATS[(i // 8) % 4]], [a2, b2, FORMATS[(i // 8 + 2) % 4]]]
         else:
             spec['chains'] = gen_chains(rng, 2)
+    # named files: the directed corpus walks through the pool of (file name, fmt) pairs, the rest draws from it
+    for i, spec in enumerate(specs):
+        if 'named' in spec:
+            continue
+        if i < len(DIRECTED):
+            spec['named'] = [list(NAMED[(2 * i) % len(NAMED)]), list(NAMED[(2 * i + 1) % len(NAMED)])]
+        else:
+            spec['named'] = [list(NAMED[int(rng.integers(0, len(NAMED)))])]
     batch = []
     with tempfile.TemporaryDirectory(prefix='c16_') as tmpdir:
         for spec in specs:
             check_spec(ctx, spec, tmpdir, batch)
     check_ravel(ctx, rng, ctx.scale(50, 1000), batch)
+    check_names(ctx, rng, ctx.scale(150, 3000), batch)
     out = ctx.model([b[2] for b in batch])
     old_agree = old_total = 0
+    gold_agree = gold_total = 0
+    bad_differs = bad_total = bad_lazy = 0
     for (spec, label, line, exp), resp in zip(batch, out):
         if label.startswith('fits-old'):
             old_total += 1
             old_agree += (canon_scalars(resp) == canon_scalars(exp))
             continue
+        if label == 'gridold' or label.startswith('file-old'):
+            gold_total += 1
+            gold_agree += (canon_answer(resp) == canon_answer(exp))
+            continue
+        if label == 'todict-st-bad':
+            # the variant of the model that reads the property `weights`: must be told apart by the real observations
+            # exactly on the objects whose weights were not materialised
+            bad_total += 1
+            bad_lazy += (' before=N ' in exp)
+            bad_differs += (canon_answer(resp) != canon_answer(exp))
+            if (canon_answer(resp) != canon_answer(exp)) != (' before=N ' in exp):
+                ctx.disagree('C16 todict-st-bad', {'spec': spec, 'impl': exp[:2000], 'model': resp[:2000],
+                                                   'note': 'the bad variant must differ from the code iff _weights was None'})
+            continue
         ctx.traces_validated += 1
         if label.startswith('fits-'):
             resp, exp = canon_scalars(resp), canon_scalars(exp)
+        if label.startswith('file-') or label == 'todict-st':
+            resp, exp = canon_answer(resp), canon_answer(exp)
+        if label in ('filert', 'chain'):
+            resp, exp = canon_answer(canon_scalars(resp)), canon_answer(canon_scalars(exp))
         if resp != exp:
             ctx.disagree('C16 ' + label, {'spec': spec, 'impl': exp[:2000], 'model': resp[:2000]})
+        ctx.count('model-stream:' + label.split(':')[0])
     ctx.extra['impl_agrees_with_model_of_unrepaired_fits_paths'] = '%d/%d' % (old_agree, old_total)
+    ctx.extra['impl_agrees_with_model_of_unrepaired_grid_registry_D161'] = '%d/%d' % (gold_agree, gold_total)
+    ctx.extra['bad_to_dict_model_told_apart'] = '%d of %d objects (%d had _weights None)' % (bad_differs, bad_total, bad_lazy)
 
 
 def replay(ctx, case):
